@@ -64,6 +64,13 @@ func (d *dialer) Dial() (transport.Pipe, error) {
 }
 
 // SetOption implements Dialer SetOption method.
+// Close abandons a negotiation that is in progress: Dial returns
+// ErrClosed, now and from now on.
+func (d *dialer) Close() error {
+	d.hs.Close()
+	return nil
+}
+
 func (d *dialer) SetOption(n string, v interface{}) error {
 	d.lock.Lock()
 	defer d.lock.Unlock()
